@@ -10,7 +10,7 @@ use crate::scenario::*;
 use crate::schemes::*;
 use crate::seams::*;
 use crate::session::*;
-use ark_ff::{UniformRand, Zero};
+use ark_ff::Zero;
 use ark_poly_commit::{Evaluations, LabeledCommitment, QuerySet};
 use ark_std::rand::Rng;
 
